@@ -363,7 +363,8 @@ func (s *State) evalIndexExpression(left object.Object, node *ast.IndexExpressio
 	if node.Token.Type() == token.DOT {
 		// index is the string value and not an identifier to resolve.
 		key := node.Index.Value()
-		if key.Type() != token.STRING && key.Type() != token.IDENT {
+		// (REGISTER: m.i where i also is the name of an integer parameter or loop variable, still the key "i")
+		if key.Type() != token.STRING && key.Type() != token.IDENT && key.Type() != token.REGISTER {
 			return s.Errorf("index expression with . not string: %s", key.Literal())
 		}
 		return s.evalIndexExpressionIdx(left, object.String{Value: key.Literal()})
@@ -456,7 +457,7 @@ func (s *State) evalDelete(node ast.Node) object.Object {
 		}
 		// index is the string value and not an identifier to resolve.
 		key := idxE.Index.Value()
-		if key.Type() != token.STRING && key.Type() != token.IDENT {
+		if key.Type() != token.STRING && key.Type() != token.IDENT && key.Type() != token.REGISTER {
 			return s.Errorf("del expression with . not a string: %s", key.Literal())
 		}
 		index := object.String{Value: key.Literal()}
